@@ -114,7 +114,11 @@ def classify(e, root):
     if target is None:
         return False, "other"
     if not target.startswith("/"):
-        target = os.path.normpath(os.path.join(root, target))
+        base = root
+        # *at() calls with a directory fd: the path is relative to that directory
+        if s.endswith("at") and e.fdpath and e.fdpath.startswith("/") and s not in ("write",):
+            base = e.fdpath
+        target = os.path.normpath(os.path.join(base, target))
     r = rel(target, root)
     if r is None or r.startswith("/"):
         return False, "outside"
